@@ -38,7 +38,7 @@ LEVEL = "fault_enumeration"
 EXHAUSTIVE = True
 THEOREMS = ["dec_enc", "dec_proper_prefix_fails", "read_prefix_safe_abstract", "read_full_abstract",
             "valSerialiser_lawful", "blockContainer_lawful", "read_prefix_safe", "read_complete_iff",
-            "read_monotone"]
+            "read_monotone", "read_strict_complete_iff", "read_prefix_safe_strict", "strict_implies_lazy"]
 BUDGET = {"quick": 100, "thorough": 600}
 RULE = ("trace files written by the real `create_main_run_output` from real `run_phyclone_chain` results (2-5 data points, "
         "1-2 samples, grid 3-6, 1-3 chains, 1-4 kept iterations, burn-in 0-2, 2-4 particles, three proposal kernels, outliers "
